@@ -104,9 +104,10 @@ const VK_ITF_INF64: u64 = 0x7ff0_0000_0000_0000;
 // leading-zero count of the top word.  With a symbolic top word that count is symbolic and CBMC has to encode the
 // (in fact unreachable) heap arm of `shr_large_ref` with a symbolic allocation size / symbolic memcpy, which does not
 // terminate in reasonable time (probed: > 6 min / out of memory even for to_f32, where the shift is never executed).
-// So the TOP word of every magnitude is concrete - swept over a palette that covers every leading-zero count - and all
-// lower words are fully symbolic 64-bit values shared by the whole sweep.  Symbolic execution costs ~1 s per concrete
-// top word, which is why the sweep is cut into several harnesses.
+// A symbolic sign has the same effect (the sign lives in the capacity field that drives the inline/heap dispatch and
+// the deallocation size: > 20 GB).  So the TOP word and the sign of every value are concrete - swept over a palette
+// that covers every leading-zero count - and all lower words are fully symbolic 64-bit values shared by the sweep.
+// Symbolic execution costs ~1 s per concrete top word, which is why the sweeps are cut into slices of 16.
 //
 // Top-word palettes (k = 0..=63 is the position of the leading one):
 //   POW2  2^k                   the smallest top word of that length
@@ -114,9 +115,10 @@ const VK_ITF_INF64: u64 = 0x7ff0_0000_0000_0000;
 //   TIE   k >= 53 (f64: the round bit lies inside the top word):
 //         2^k + 2^(k-53)        round bit = lowest set bit of the top word (tie iff the lower words are zero; even)
 //         2^k + 3 * 2^(k-53)    the same with an odd 53-bit significand (the tie rounds up)
-//         + six fixed patterns (alternating bits, 2^63 + 1, 53 / 54 leading ones, 53 ones with a hole at the round bit)
+//   FIXED six patterns: alternating bits (2), 2^63 + 1, 53 / 54 leading ones, 53 ones with a hole at the round bit
+//   SIGNED (IBig harnesses, each with both signs): 1, 2^10, 2^11, 2^52, 2^53 + 1, 2^63, 2^63 + 1, u64::MAX
 
-const VK_ITF_EXTRA_TOPS: [Word; 6] = [
+const VK_ITF_FIXED_TOPS: [Word; 6] = [
     0xAAAA_AAAA_AAAA_AAAA,
     0x5555_5555_5555_5555,
     0x8000_0000_0000_0001,
@@ -125,13 +127,7 @@ const VK_ITF_EXTRA_TOPS: [Word; 6] = [
     0xFFFF_FFFF_FFFF_FBFF,
 ];
 
-fn vk_itf_sign(neg: bool) -> Sign {
-    if neg {
-        Sign::Negative
-    } else {
-        Sign::Positive
-    }
-}
+const VK_ITF_SIGNED_TOPS: [Word; 8] = [1, 1 << 10, 1 << 11, 1 << 52, (1 << 53) + 1, 1 << 63, (1 << 63) + 1, Word::MAX];
 
 /// one magnitude (top word concrete, lower words symbolic) through UBig::to_f64 (`neg` = None) or IBig::to_f64
 fn vk_itf_case64<const N: usize>(w: [Word; N], neg: Option<bool>) {
@@ -139,10 +135,8 @@ fn vk_itf_case64<const N: usize>(w: [Word; N], neg: Option<bool>) {
     let x = UBig::from_words(&w);
     match neg {
         None => vk_itf_check64(vk_itf_flat64(x.to_f64()), want, false),
-        Some(neg) => {
-            let x = IBig::from_parts(vk_itf_sign(neg), x);
-            vk_itf_check64(vk_itf_flat64(x.to_f64()), want, neg);
-        }
+        Some(true) => vk_itf_check64(vk_itf_flat64(IBig::from_parts(Sign::Negative, x).to_f64()), want, true),
+        Some(false) => vk_itf_check64(vk_itf_flat64(IBig::from_parts(Sign::Positive, x).to_f64()), want, false),
     }
 }
 
@@ -152,93 +146,64 @@ fn vk_itf_case32<const N: usize>(w: [Word; N], neg: Option<bool>) {
     let x = UBig::from_words(&w);
     let ((bits, exact, pos), neg) = match neg {
         None => (vk_itf_flat32(x.to_f32()), false),
-        Some(neg) => (vk_itf_flat32(IBig::from_parts(vk_itf_sign(neg), x).to_f32()), neg),
+        Some(true) => (vk_itf_flat32(IBig::from_parts(Sign::Negative, x).to_f32()), true),
+        Some(false) => (vk_itf_flat32(IBig::from_parts(Sign::Positive, x).to_f32()), false),
     };
     assert!(bits == if neg { VK_ITF_INF32 | (1 << 31) } else { VK_ITF_INF32 });
     assert!(!exact && pos == !neg);
 }
 
-// ---- 3 words (129..=192 bits), to_f64 ---------------------------------------------------------------------------
+// ---- 3 words (129..=192 bits), UBig::to_f64 -----------------------------------------------------------------------
 
-#[cfg_attr(kani, kani::proof)]
-#[cfg_attr(kani, kani::unwind(70))]
-#[cfg_attr(not(kani), test)]
-fn vk_int_to_float_k_ibig_f64_w3_pow2() {
-    let (w0, w1, neg): (Word, Word, bool) = (any(), any(), any());
-    let mut k = 0;
-    while k < 64 {
-        vk_itf_case64([w0, w1, 1 << k], Some(neg));
-        k += 1;
-    }
-    cover();
+macro_rules! vk_itf_ubig_f64_w3_sweep {
+    ($($name:ident = ($klo:expr, $khi:expr, $top:expr)),* $(,)?) => {$(
+        #[cfg_attr(kani, kani::proof)]
+        #[cfg_attr(kani, kani::unwind(20))]
+        #[cfg_attr(not(kani), test)]
+        fn $name() {
+            let (w0, w1): (Word, Word) = (any(), any());
+            let f: fn(u32) -> Word = $top;
+            let mut k: u32 = $klo;
+            while k < $khi {
+                vk_itf_case64([w0, w1, f(k)], None);
+                k += 1;
+            }
+            cover();
+        }
+    )*};
 }
 
-#[cfg_attr(kani, kani::proof)]
-#[cfg_attr(kani, kani::unwind(70))]
-#[cfg_attr(not(kani), test)]
-fn vk_int_to_float_k_ibig_f64_w3_ones() {
-    let (w0, w1, neg): (Word, Word, bool) = (any(), any(), any());
-    let mut k = 0;
-    while k < 64 {
-        vk_itf_case64([w0, w1, Word::MAX >> k], Some(neg));
-        k += 1;
-    }
-    cover();
-}
+vk_itf_ubig_f64_w3_sweep!(
+    vk_int_to_float_k_ubig_f64_w3_pow2_a = (0, 16, |k| 1 << k),
+    vk_int_to_float_k_ubig_f64_w3_pow2_b = (16, 32, |k| 1 << k),
+    vk_int_to_float_k_ubig_f64_w3_pow2_c = (32, 48, |k| 1 << k),
+    vk_int_to_float_k_ubig_f64_w3_pow2_d = (48, 64, |k| 1 << k),
+    vk_int_to_float_k_ubig_f64_w3_ones_a = (0, 16, |k| Word::MAX >> (63 - k)),
+    vk_int_to_float_k_ubig_f64_w3_ones_b = (16, 32, |k| Word::MAX >> (63 - k)),
+    vk_int_to_float_k_ubig_f64_w3_ones_c = (32, 48, |k| Word::MAX >> (63 - k)),
+    vk_int_to_float_k_ubig_f64_w3_ones_d = (48, 64, |k| Word::MAX >> (63 - k)),
+    vk_int_to_float_k_ubig_f64_w3_tie_even = (53, 64, |k| (1 << k) | (1 << (k - 53))),
+    vk_int_to_float_k_ubig_f64_w3_tie_odd = (53, 64, |k| (1 << k) | (3 << (k - 53))),
+    vk_int_to_float_k_ubig_f64_w3_fixed = (0, 6, |k| VK_ITF_FIXED_TOPS[k as usize]),
+);
+
+// ---- 3 words, IBig::to_f64 (both signs) ---------------------------------------------------------------------------
 
 #[cfg_attr(kani, kani::proof)]
-#[cfg_attr(kani, kani::unwind(70))]
+#[cfg_attr(kani, kani::unwind(20))]
 #[cfg_attr(not(kani), test)]
-fn vk_int_to_float_k_ibig_f64_w3_tie() {
-    let (w0, w1, neg): (Word, Word, bool) = (any(), any(), any());
-    let mut k = 53;
-    while k < 64 {
-        vk_itf_case64([w0, w1, (1 << k) | (1 << (k - 53))], Some(neg));
-        vk_itf_case64([w0, w1, (1 << k) | (3 << (k - 53))], Some(neg));
-        k += 1;
-    }
-    let mut i = 0;
-    while i < VK_ITF_EXTRA_TOPS.len() {
-        vk_itf_case64([w0, w1, VK_ITF_EXTRA_TOPS[i]], Some(neg));
-        i += 1;
-    }
-    cover();
-}
-
-#[cfg_attr(kani, kani::proof)]
-#[cfg_attr(kani, kani::unwind(70))]
-#[cfg_attr(not(kani), test)]
-fn vk_int_to_float_k_ubig_f64_w3() {
+fn vk_int_to_float_k_ibig_f64_w3() {
     let (w0, w1): (Word, Word) = (any(), any());
-    let mut k = 0;
-    while k < 64 {
-        vk_itf_case64([w0, w1, 1 << k], None);
-        k += 3; // 0, 3, .., 63
-    }
     let mut i = 0;
-    while i < VK_ITF_EXTRA_TOPS.len() {
-        vk_itf_case64([w0, w1, VK_ITF_EXTRA_TOPS[i]], None);
+    while i < VK_ITF_SIGNED_TOPS.len() {
+        vk_itf_case64([w0, w1, VK_ITF_SIGNED_TOPS[i]], Some(false));
+        vk_itf_case64([w0, w1, VK_ITF_SIGNED_TOPS[i]], Some(true));
         i += 1;
     }
-    vk_itf_case64([w0, w1, Word::MAX], None);
     cover();
 }
 
 // ---- 3 words, to_f32 -----------------------------------------------------------------------------------------------
-
-#[cfg_attr(kani, kani::proof)]
-#[cfg_attr(kani, kani::unwind(70))]
-#[cfg_attr(not(kani), test)]
-fn vk_int_to_float_k_ibig_f32_w3() {
-    let (w0, w1, neg): (Word, Word, bool) = (any(), any(), any());
-    let mut k = 0;
-    while k < 64 {
-        vk_itf_case32([w0, w1, 1 << k], Some(neg));
-        k += 1;
-    }
-    vk_itf_case32([w0, w1, Word::MAX], Some(neg));
-    cover();
-}
 
 #[cfg_attr(kani, kani::proof)]
 #[cfg_attr(kani, kani::unwind(70))]
@@ -248,25 +213,40 @@ fn vk_int_to_float_k_ubig_f32_w3() {
     let mut k = 0;
     while k < 64 {
         vk_itf_case32([w0, w1, 1 << k], None);
-        k += 3;
+        k += 1;
     }
     vk_itf_case32([w0, w1, Word::MAX], None);
+    cover();
+}
+
+#[cfg_attr(kani, kani::proof)]
+#[cfg_attr(kani, kani::unwind(20))]
+#[cfg_attr(not(kani), test)]
+fn vk_int_to_float_k_ibig_f32_w3() {
+    let (w0, w1): (Word, Word) = (any(), any());
+    let mut i = 0;
+    while i < VK_ITF_SIGNED_TOPS.len() {
+        vk_itf_case32([w0, w1, VK_ITF_SIGNED_TOPS[i]], Some(false));
+        vk_itf_case32([w0, w1, VK_ITF_SIGNED_TOPS[i]], Some(true));
+        i += 1;
+    }
     cover();
 }
 
 // ---- 4 words (193..=256 bits): three symbolic lower words ---------------------------------------------------------
 
 #[cfg_attr(kani, kani::proof)]
-#[cfg_attr(kani, kani::unwind(70))]
+#[cfg_attr(kani, kani::unwind(20))]
 #[cfg_attr(not(kani), test)]
-fn vk_int_to_float_k_ibig_f64_w4() {
-    let (w0, w1, w2, neg): (Word, Word, Word, bool) = (any(), any(), any(), any());
-    let mut k = 0;
+fn vk_int_to_float_k_ubig_f64_w4() {
+    let (w0, w1, w2): (Word, Word, Word) = (any(), any(), any());
+    let mut k = 3;
     while k < 64 {
-        vk_itf_case64([w0, w1, w2, 1 << k], Some(neg));
-        k += 1;
+        vk_itf_case64([w0, w1, w2, 1 << k], None);
+        k += 4; // 3, 7, .., 63
     }
-    vk_itf_case64([w0, w1, w2, Word::MAX], Some(neg));
+    vk_itf_case64([w0, w1, w2, 1], None);
+    vk_itf_case64([w0, w1, w2, Word::MAX], None);
     cover();
 }
 
@@ -276,12 +256,14 @@ fn vk_int_to_float_k_ibig_f64_w4() {
 #[cfg_attr(kani, kani::unwind(20))]
 #[cfg_attr(not(kani), test)]
 fn vk_int_to_float_k_w17_inf() {
-    let mut w: [Word; 17] = any();
-    let neg: bool = any();
-    w[16] = 1;
-    let x = IBig::from_parts(vk_itf_sign(neg), UBig::from_words(&w));
+    let l: [Word; 16] = any();
+    let w: [Word; 17] =
+        [l[0], l[1], l[2], l[3], l[4], l[5], l[6], l[7], l[8], l[9], l[10], l[11], l[12], l[13], l[14], l[15], 1];
+    let x = UBig::from_words(&w);
     let (bits, exact, pos) = vk_itf_flat64(x.to_f64());
-    assert!(bits == if neg { VK_ITF_INF64 | (1 << 63) } else { VK_ITF_INF64 });
-    assert!(!exact && pos == !neg);
+    assert!(bits == VK_ITF_INF64 && !exact && pos);
+    let x = IBig::from_parts(Sign::Negative, x);
+    let (bits, exact, pos) = vk_itf_flat64(x.to_f64());
+    assert!(bits == VK_ITF_INF64 | (1 << 63) && !exact && !pos);
     cover();
 }
